@@ -81,6 +81,23 @@ def cmd_lock(sim, vp, cmd, res):
         out["getattr_unknown"] = "returned"
     except settings.SettingsException:
         out["getattr_unknown"] = "refused"
+    # the rest of the in-memory API
+    out["locked"] = S.locked()
+    out["get_known"] = (getattr(S, cmd["known"]), S[cmd["known"]])
+    fresh = settings.SettingsContainer.from_json_file(settings.DEFAULT_PATH)
+    out["reloaded"] = {k: v for k, v in fresh.items() if k != "__locked__"}
+    out["reloaded_locked"] = fresh.locked()
+    try:
+        setattr(fresh, cmd["unknown"], 1)
+        out["reloaded_accepts_unknown"] = True
+    except settings.SettingsException:
+        out["reloaded_accepts_unknown"] = False
+    a = dict(cmd.get("md_a", {}))
+    b = dict(cmd.get("md_b", {}))
+    b0 = dict(b)
+    merged = settings.merge_dicts(a, b, soft=bool(cmd.get("md_soft")))
+    out["merge_dicts"] = dict(merged)
+    out["merge_dicts_second_unchanged"] = (b == b0)
     res["lock"] = out
 
 
@@ -604,7 +621,10 @@ class C18(Check):
                             "known": k1,
                             "kv": sg.user_value(dflt[k1], g1[1:], k1),
                             "known2": k2,
-                            "kv2": sg.user_value(dflt[k2], g2[1:], k2)})
+                            "kv2": sg.user_value(dflt[k2], g2[1:], k2),
+                            "md_a": sg.gen_other_config(rng, dflt),
+                            "md_b": sg.gen_other_config(rng, dflt),
+                            "md_soft": rng.random() < 0.5})
         return {"kind": "history", "seed": rng.getrandbits(32), "init": init,
                 "ops": ops}
 
@@ -1122,6 +1142,27 @@ class C18(Check):
         if out["getattr_unknown"] != "refused":
             return self._fail("lock", "unknown-parameter-readable",
                               outcome=out)
+        if out["locked"] is not True or out["reloaded_locked"] is not True \
+                or out["reloaded_accepts_unknown"]:
+            return self._fail("lock", "container-not-locked", outcome={
+                k: out[k] for k in ("locked", "reloaded_locked",
+                                    "reloaded_accepts_unknown")})
+        if not same(out["get_known"][0], op["kv"]) or not same(
+                out["get_known"][1], op["kv"]):
+            return self._fail("lock", "known-parameter-read-back",
+                              expected=op["kv"], actual=list(out["get_known"]))
+        if compare(out["reloaded"], dict(plain_dict(model.settings))):
+            d = compare(out["reloaded"], dict(plain_dict(model.settings)))[0]
+            return self._fail("lock", "from-json-file-differs-from-disk",
+                              key=d[1], expected=d[2], actual=d[3])
+        ma, mb = dict(op.get("md_a", {})), dict(op.get("md_b", {}))
+        exp = dict(mb, **ma) if op.get("md_soft") else dict(ma, **mb)
+        if not same(out["merge_dicts"], exp) or not out[
+                "merge_dicts_second_unchanged"]:
+            return self._fail("lock", "merge-dicts", expected=exp,
+                              actual=out["merge_dicts"],
+                              second_unchanged=out[
+                                  "merge_dicts_second_unchanged"])
         extra = [k for k in st if k != "__locked__" and k not in
                  model.settings]
         if extra:
